@@ -10,8 +10,8 @@
    regime.  Outside these two proof hypotheses the statement is neither proved nor refuted (the oracle covers it). *)
 From Coq Require Import ZArith List String Bool Arith.
 Import ListNotations.
-From TD Require Import Model.C01_Tree Model.C01_Ops Model.C01_Scope Model.C01_Index Model.C01_All.
-From TD Require Import Proofs.C01_SetP Proofs.C01_AutoP Proofs.C01_MainP Proofs.C01_IndexP Proofs.C01_AllP.
+From TD Require Import Model.C01_Tree Model.C01_Ops Model.C01_Scope Model.C01_Index Model.C01_All Model.C01_Lazy.
+From TD Require Import Proofs.C01_SetP Proofs.C01_AutoP Proofs.C01_MainP Proofs.C01_IndexP Proofs.C01_AllP Proofs.C01_LazyP.
 From TD Require Model.C03_Index.
 Open Scope string_scope.
 Open Scope list_scope.
@@ -231,3 +231,60 @@ Example C01_ex_autocreated :
   sub_set (write_td 3) "new" (Leaf [2; 7] META) [C03_Index.IInt 1%Z] [2] (Node KTd [3; 2] (Some META) None [])
   = (Node KTd [3; 2] (Some META) None [("new", Leaf [3; 2; 7] META)], Done).
 Proof. vm_compute. reflexivity. Qed.
+
+(* ================================================================ a lazy stack at the root (Model/C01_Lazy.v) ============
+   LStack stack_dim members.  Coherence of a lazy stack (lcohb): at least one member, every member a coherent TensorDict, one
+   batch size and one device among the members, stack_dim inside the derived batch size (members' batch size with the member
+   count inserted at stack_dim).  The names of the stack are NOT part of it: finding D107 (members with different dim names
+   are accepted; LazyStackedTensorDict.names then raises) stays a finding of the oracle. *)
+
+(* C01_lazy_step: every modelled call on a lazy stack — set / td[key] = v / set_ (string and nested keys: value validated
+   against the derived batch size and device, unbound along stack_dim, written member by member), del_, insert, append,
+   batch_size assignment — keeps it coherent, for ok AND raising outcomes: a member that raises leaves the members written
+   before it written, and each of them coherent.  Only hypothesis: tensordict values handed over are coherent by themselves. *)
+Theorem C01_lazy_step : forall L o, LCoherent L -> lop_value_ok o = true -> LCoherent (fst (lstep L o)).
+Proof. exact lstep_coh. Qed.
+Print Assumptions C01_lazy_step.
+
+Theorem C01_lazy_reachable : forall ops L,
+  LCoherent L -> Forall (fun o => lop_value_ok o = true) ops -> LCoherent (lrun L ops).
+Proof. exact lrun_coh. Qed.
+Print Assumptions C01_lazy_reachable.
+
+(* what a coherent stack means for an observer: every member is coherent, has the stack's batch size without the stack
+   dim, and lives on the stack's (derived) device *)
+Theorem C01_lazy_members : forall d ms m, LCoherent (LStack d ms) -> In m ms ->
+  Coherent m /\ tshape m = remove_nth d (lbs (LStack d ms)) /\ tdev m = ldev (LStack d ms).
+Proof. exact lcoh_members. Qed.
+Print Assumptions C01_lazy_members.
+
+(* insert / append: a member with another batch size or on another device is refused, the stack is left as it was *)
+Theorem C01_lazy_insert_rejects : forall i d ms vb vd vn ve,
+  (shape_eqb vb (mbs ms) = false \/ odev_eqb (mdev ms) vd = false) ->
+  linsert i (VTree (Node KTd vb vd vn ve)) (LStack d ms) = (LStack d ms, Raised).
+Proof. exact linsert_rejects. Qed.
+Print Assumptions C01_lazy_insert_rejects.
+
+(* non-vacuity: a stack of two members along dim 1; a write that raises in the SECOND member after the first was written
+   (its entry has another feature shape: the in-place copy is refused), an ill-shaped value, a nested
+   key, append of a well- and an ill-shaped member, del_ of a key only one member holds *)
+Definition ex_member (extra : ents) : tree :=
+  Node KTd [3; 2] (Some CPU) None ([("a", Leaf [3; 2; 4] CPU); ("n", Node KTd [3; 2] (Some CPU) None [("x", Leaf [3; 2] CPU)])] ++ extra).
+Definition ex_lstack : lstack :=
+  LStack 1 [ex_member [("q", Leaf [3; 2] CPU)]; ex_member [("q", Leaf [3; 2; 9] CPU); ("only", Leaf [3; 2] CPU)]].
+Definition ex_lops : list lop :=
+  [ LSet ["q"] (VTree (Leaf [3; 2; 2] CPU)) true;                 (* in place: member 0 written, member 1 refuses *)
+    LSet ["a"] (VTree (Leaf [3; 5; 2] CPU)) false;                (* ill-shaped against the derived batch size [3; 2; 2] *)
+    LSet ["n"; "y"] (VTree (Leaf [3; 2; 2; 7] CPU)) false;
+    LAppend (VTree (ex_member []));
+    LAppend (VTree (Node KTd [3] (Some CPU) None []));
+    LDel ["only"];
+    LBatchSize true [3; 3; 2] ].
+Example C01_ex_lazy_premises : LCoherent ex_lstack /\ forallb lop_value_ok ex_lops = true.
+Proof. vm_compute. split; reflexivity. Qed.
+Example C01_ex_lazy_outcomes :
+  map (fun n => snd (lstep (lrun ex_lstack (firstn n ex_lops)) (nth n ex_lops (LDel [])))) [0; 1; 2; 3; 4; 5; 6]
+  = [Raised; Raised; Done; Done; Raised; Done; Done].
+Proof. vm_compute. reflexivity. Qed.
+Example C01_ex_lazy_final : lcohb (lrun ex_lstack ex_lops) = true /\ lbs (lrun ex_lstack ex_lops) = [3; 3; 2].
+Proof. vm_compute. split; reflexivity. Qed.
